@@ -41,6 +41,10 @@ def gen(r, n):
     # ... while the unit is being terminated for a timeout: killed at the continue
     scs.append(dict(u=150, period=1, ta=2, grace=4, leak=0.7, dur=12, on_term="ignore",
                     sigs=[(2.5, "TSTP"), (3.5, "INT"), (4.5, "CONT")]))
+    # finding F17 (known): stopped inside the grace period of a *signal* termination -- the slow-timeout interval
+    # is not owned by terminate_child and runs through the stop
+    scs.append(dict(u=150, period=8, ta=None, grace=4, leak=0.7, dur=20, on_term="ignore",
+                    sigs=[(1.5, "INT"), (2.5, "TSTP"), (7.5, "CONT")]))
     # two units running: both are stopped before nextest stops itself
     scs.append(dict(u=150, period=20, ta=None, grace=2, leak=0.7, dur=4.5, on_term="exit", bystander=3.5,
                     sigs=[(1.5, "TSTP"), (4.5, "CONT")]))
@@ -108,7 +112,7 @@ def run(tier, seed):
         chk.violation("broken-obligation", "e2e-build", dict(error=str(ex)[-3000:]), no_input=True)
         return chk.finish(gate, "make -C coq Properties/C12.vo", [])
     r = vlib.rng_for(seed, PROP)
-    scs = gen(r, 66 if tier == "thorough" else 23)
+    scs = gen(r, 67 if tier == "thorough" else 24)
     life_scs = []
     if U.check_family(chk, rig, scs, U.oracle_C12, "c12"):
         if U.check_family(chk, rig, info_scenarios(), oracle_info, "c12i"):
